@@ -6,6 +6,12 @@ import ClusterVerif.Lemmas.C18SyncClusterA
 import ClusterVerif.Lemmas.C18SyncClusterB
 import ClusterVerif.Lemmas.C18SyncClusterC
 import ClusterVerif.Lemmas.C18SyncClusterR
+import ClusterVerif.Model.C18Inventory
+import ClusterVerif.Model.C18ChanOps
+import ClusterVerif.Lemmas.C18SyncMoreA
+import ClusterVerif.Lemmas.C18SyncMoreB
+import ClusterVerif.Lemmas.C18SyncMoreR
+import ClusterVerif.Lemmas.C18SyncClusterS
 
 /-!
 # C18 — concurrent use of the API never races, panics, deadlocks or tears results
@@ -491,6 +497,62 @@ critical section of its mutex (so `pair_read_atomic`, not the refuted two-sectio
 model of today's `unsafePinInfo`) -/
 theorem gen_snapshots_atomic : snapshotsOK Gen.snapshots = true := by decide
 
+/-- round 8b: EVERY field of a struct of the analysed packages whose type comes from package `sync` is the designated mutex
+of some guard of the discipline, or is in the reviewed list of `Model/C18Inventory.lean` (`paMux`, the two wait groups, one
+`sync.Map`) — a new mutex in the anchored structs fails this obligation until it is said what it guards -/
+theorem gen_sync_inventory_reviewed : inventoryOK Gen.syncFields reviewedSyncFields = true := by decide
+
+/-- … and the inventory is not vacuous: the twelve designated mutexes are found -/
+theorem gen_sync_inventory_nonempty : 12 ≤ (designatedMutexes Gen.syncFields).length ∧ 16 ≤ Gen.syncFields.length := by decide
+
+/-- Prop reading of `inventoryOK`: every listed field is a designated mutex or a reviewed field -/
+theorem inventoryOK_sound (fs : List SyncField) (rv : List (String × String)) (h : inventoryOK fs rv = true) :
+    ∀ f ∈ fs, (f.2.2.2 = true ∧ isMutexKind f.2.2.1 = true) ∨ (f.2.2.2 = false ∧ (f.1, f.2.1) ∈ rv) := by
+  intro f hf
+  unfold inventoryOK at h
+  rw [Bool.and_eq_true] at h
+  have := List.all_eq_true.mp h.1 f hf
+  simp only [Bool.or_eq_true, Bool.and_eq_true, Bool.not_eq_true', List.contains_iff_mem] at this
+  exact this
+
+/-- a struct that gained an unreviewed mutex is rejected; the same field once designated is accepted -/
+example : inventoryOK [(".|Cluster", "newMu", "Mutex", false)] [] = false ∧
+    inventoryOK [(".|Cluster", "newMu", "Mutex", true)] [] = true ∧
+    inventoryOK [] [(".|Cluster", "gone")] = false := by decide
+
+/-- round 8b, SEMANTIC tie of the synchronisation models: every channel send and every `close` in a function of the ten anchored
+files (`Gen.chanOps`, go/ast) is a known site of a transcribed program, and the program has the same shape there — a send that is a
+case of a `select` with `default:` is an alternative of an instruction with a default branch (`tryOp`), a plain send is a plain
+one-alternative instruction, a `close` is present in the thread; every listed site still exists. A queue send that loses its
+`default:` (wrong edits t2 / w1 / q1 of `more_wrong_edits_refuted`) or a new `close` (t3) breaks THIS obligation, a rewrite that
+keeps the channel operations does not. -/
+theorem gen_chan_ops_match_model : chanOpsOK Gen.chanOps = true := by decide +kernel
+
+/-- the facts the three blocking-send edits and the closing `Shutdown` would produce are rejected; the edited programs do not have
+the shape of today's facts either -/
+example : chanOpOK ("pintracker/stateless|Tracker.enqueue", "send", "ch", "blocking") = false ∧
+    chanOpOK ("monitor/metrics|Checker.alert", "send", "mc.alertCh", "blocking") = false ∧
+    chanOpOK ("consensus/crdt|Consensus.LogPin", "send", "css.batchItemCh", "blocking") = false ∧
+    chanOpOK ("pintracker/stateless|Tracker.Shutdown", "close", "spt.pinCh", "-") = false ∧
+    sendsHaveDefault Sync.Progs.tTrack2Blocking 1 = false ∧
+    closesOnly Sync.Progs.aShutdown [0] = true ∧ closesOnly Sync.Progs.tShutdownClosesQueue [0] = false := by decide +kernel
+
+/-- Prop reading of `sendsHaveDefault` -/
+theorem sendsHaveDefault_sound (code : Sync.Code) (ch : Nat) (h : sendsHaveDefault code ch = true) :
+    ∀ ins ∈ code, ∀ a ∈ ins.alts, a.op = Sync.Op.send ch → ins.dflt.isSome = true := by
+  intro ins hins a ha hop
+  have h1 := List.all_eq_true.mp (List.all_eq_true.mp h ins hins) a ha
+  simp only [hop, opSendsOn, Nat.beq_refl, Bool.not_true, Bool.false_or] at h1
+  exact h1
+
+open Sync in
+/-- what the `default:` buys, for EVERY program and state: a thread standing at an instruction with a default branch can always
+move (one of its alternatives is enabled, or the default is taken) — a `select` with `default:` never blocks, whatever the
+other threads did to the channel -/
+theorem default_never_blocks {P : List Code} {cfg : Cfg} {s t pc : Nat} {ins : Instr}
+    (h0 : panicCode s = 0) (hi : instrAt P cfg s t = some ins) (hd : ins.dflt = some pc) :
+    ∃ a, (Sync.step P cfg s t a).isSome = true := dflt_never_blocks h0 hi hd
+
 /-- the table is not vacuous -/
 theorem gen_table_nonempty : 60 ≤ Gen.accesses.length ∧ 5 ≤ Gen.edges.length ∧ 15 ≤ Gen.guards.length := by decide
 
@@ -523,6 +585,21 @@ theorem gen_source_cluster_Cluster_Ready : Gen.Src.cluster_Cluster_Ready = Expec
 theorem gen_source_cluster_Cluster_Shutdown : Gen.Src.cluster_Cluster_Shutdown = Expected.cluster_Cluster_Shutdown := rfl
 theorem gen_source_cluster_Cluster_Done : Gen.Src.cluster_Cluster_Done = Expected.cluster_Cluster_Done := rfl
 theorem gen_source_cluster_Cluster_watchPeers : Gen.Src.cluster_Cluster_watchPeers = Expected.cluster_Cluster_watchPeers := rfl
+-- round 8b: the functions `Model/C18SyncProgs2.lean` transcribes
+theorem gen_source_stateless_Tracker_pin : Gen.Src.stateless_Tracker_pin = Expected.stateless_Tracker_pin := rfl
+theorem gen_source_stateless_Tracker_unpin : Gen.Src.stateless_Tracker_unpin = Expected.stateless_Tracker_unpin := rfl
+theorem gen_source_stateless_Tracker_Recover : Gen.Src.stateless_Tracker_Recover = Expected.stateless_Tracker_Recover := rfl
+theorem gen_source_stateless_Tracker_recoverWithPinInfo : Gen.Src.stateless_Tracker_recoverWithPinInfo = Expected.stateless_Tracker_recoverWithPinInfo := rfl
+theorem gen_source_disk_Informer_SetClient : Gen.Src.disk_Informer_SetClient = Expected.disk_Informer_SetClient := rfl
+theorem gen_source_disk_Informer_Shutdown : Gen.Src.disk_Informer_Shutdown = Expected.disk_Informer_Shutdown := rfl
+theorem gen_source_disk_Informer_GetMetric : Gen.Src.disk_Informer_GetMetric = Expected.disk_Informer_GetMetric := rfl
+theorem gen_source_numpin_Informer_SetClient : Gen.Src.numpin_Informer_SetClient = Expected.numpin_Informer_SetClient := rfl
+theorem gen_source_numpin_Informer_Shutdown : Gen.Src.numpin_Informer_Shutdown = Expected.numpin_Informer_Shutdown := rfl
+theorem gen_source_numpin_Informer_GetMetric : Gen.Src.numpin_Informer_GetMetric = Expected.numpin_Informer_GetMetric := rfl
+theorem gen_source_metrics_NewChecker : Gen.Src.metrics_NewChecker = Expected.metrics_NewChecker := rfl
+theorem gen_source_metrics_Checker_alert : Gen.Src.metrics_Checker_alert = Expected.metrics_Checker_alert := rfl
+theorem gen_source_metrics_Checker_Alerts : Gen.Src.metrics_Checker_Alerts = Expected.metrics_Checker_Alerts := rfl
+theorem gen_source_metrics_Checker_Watch : Gen.Src.metrics_Checker_Watch = Expected.metrics_Checker_Watch := rfl
 
 /-! ## 4''. synchronisation beyond mutexes: channels, WaitGroups, cancellation, go statements
 
@@ -635,6 +712,14 @@ theorem cluster_shutdown_safe :
   ⟨progC_certified.safe, progCF_certified.safe, progCR_certified.safe⟩
 
 open Sync Sync.Progs in
+/-- round 8b: scenario (c-i) with `watchPeers`' `for { select … }` loop AS WRITTEN (`progCS`, 1858 states; `progC` unrolls it
+once): under every schedule no panic, no racy state, never a state where nothing can move. Round 8 had only evaluated this
+program. With the loop the ticker can move until the context is cancelled, so the liveness conjunct says less than in
+`cluster_shutdown_safe` — which is why both are kept: `progC` for "every Shutdown returns", `progCS` for "the unrolling
+hides no panic / race of the loop program". -/
+theorem cluster_shutdown_safe_loop : SafeAll progCS (cfgC 9) initC := progCS_certified.safe
+
+open Sync Sync.Progs in
 /-- the K18b window is a run of `progC`: a user `Shutdown` reaches `c.wg.Wait()` (lock, flags read once, cancel) while
 `ready()` is between "consensus ready" and `c.stateLock.Lock()` -/
 example : (run progC (cfgC 9) initC
@@ -695,6 +780,83 @@ theorem misuse_refuted :
     ∧ (∃ s evs, run progB1 (cfgB 4) (mkInit (cfgB 4) [0]) schedB1 = some (s, evs) ∧ racyB progB1 (cfgB 4) s = true)
     ∧ (∃ s evs, run progB2 (cfgB 2) (mkInit (cfgB 2) [0]) schedB2 = some (s, evs) ∧ panicCode s = 1 ∧ evs.getLast? = some (.panic 0 1)) :=
   ⟨progA1_panics, progA2_deadlocks, progA3_panics, progB1_racy, progB2_panics⟩
+
+open Sync Sync.Progs in
+/-- round 8b (t): the stateless tracker IN USE beyond `tracker_shutdown_safe`: BOTH workers, `spt.rpcClient` as a memory cell
+(written by `SetClient` without a lock before the tracker is handed out; read by `pin` / `unpin` in the workers and by
+`Status` / `Recover` in the callers), `Track` ×2 on a queue of capacity one (the full-queue arm of `enqueue` is reached, also
+after `Shutdown` when no worker is left), and (i) `Recover` (status read, re-enqueue on `unpinCh`, status read) racing ONE
+`Shutdown` (1179 states) / (ii) TWO concurrent `Shutdown`s (597 states): under EVERY schedule no send on a closed channel, no
+double close, no deadlock (every call returns: no thread can spin in these programs), no racy state — in particular the
+workers' unlocked reads of `spt.rpcClient` are ordered after `SetClient`'s write by the queue (send → receive) -/
+theorem tracker_inuse_safe : SafeAll progT (cfgT 6) initT ∧ SafeAll progTS (cfgT 6) initT :=
+  ⟨progT_certified.safe, progTS_certified.safe⟩
+
+open Sync Sync.Progs in
+/-- a run of `progT` in which the second `Track` meets the full queue AFTER `Shutdown` returned and the workers left
+(the schedule that deadlocks the blocking-send edit `progT2`) -/
+example : (run progT (cfgT 6) initT (schedT2 ++ [(3,1)])).isSome = true := by decide +kernel
+
+open Sync Sync.Progs in
+/-- round 8b (i): the informer protocol (`informer/disk`, `informer/numpin`): `SetClient` by `NewCluster`, then two `GetMetric`
+callers, a `Shutdown` and a later `SetClient`, ALL interleavings (426 states): no deadlock, no racy state on `rpcClient` -/
+theorem informer_protocol_safe : SafeAll progI (cfgI 5) initI := progI_certified.safe
+
+open Sync Sync.Progs in
+/-- round 8b (w): `metrics.Checker`: `Watch` (three ticks, each `CheckPeers` → `alert` = map update and NON-blocking send on
+`alertCh` inside `failedPeersMu`), a direct `CheckAll` caller, the consumer of `Alerts()` and the cancellation of the context,
+a queue of two for four alerts, ALL interleavings (1013 states): no deadlock — `Watch` always gets back to its `select` and
+leaves through `ctx.Done()`, also when nobody drains the channel any more —, no racy state on the maps -/
+theorem checker_watch_safe : SafeAll progW (cfgW 5) initW := progW_certified.safe
+
+open Sync Sync.Progs in
+/-- round 8b (q): the crdt batching queue when it is full and after `Shutdown`: three `LogPin`s of one caller on a queue of
+two, `batchWorker`, two concurrent `Shutdown`s, ALL interleavings (624 states): safe; the third `LogPin` takes the
+`ErrMaxQueueSizeReached` arm when `batchWorker` has left -/
+theorem crdt_full_queue_safe : SafeAll progQ (cfgB 6) initB := progQ_certified.safe
+
+open Sync Sync.Progs in
+/-- round 8b: misuse and realistic wrong edits of these protocols, refuted by one schedule each:
+(t1) a `Track` handed out before `SetClient` returned → racy state on `spt.rpcClient`; (t2) `enqueue` with a blocking send →
+deadlock after `Shutdown` (workers gone, queue full); (t3) `Shutdown` also closing `pinCh` → a `Track` in use panics (send on
+closed channel); (i1) `GetMetric` using the field again outside its critical section → racy with `Shutdown`; (i2) informer
+`Shutdown` without `mu` (revert of 85a92cc) → racy; (w1) `alert` with a blocking send inside `failedPeersMu` → `Watch` stuck
+for ever once the consumer left (does not stop on `ctx.Done()`); (w2) `alert` without `failedPeersMu` → racy maps;
+(q1) `LogPin` with a blocking send → deadlock after `Shutdown` -/
+theorem more_wrong_edits_refuted :
+    (∃ s evs, run progT1 (cfgT 6) initT schedT1 = some (s, evs) ∧ racyB progT1 (cfgT 6) s = true)
+    ∧ (∃ s evs, run progT2 (cfgT 6) initT schedT2 = some (s, evs) ∧
+        panicCode s = 0 ∧ allFinished progT2 (cfgT 6) s = false ∧ ∀ c : Choice, stepC progT2 (cfgT 6) s c = none)
+    ∧ (∃ s evs, run progT3 (cfgT 6) initT schedT3 = some (s, evs) ∧ panicCode s = 1 ∧ evs.getLast? = some (.panic 3 1))
+    ∧ (∃ s evs, run progI1 (cfgI 5) initI schedI1 = some (s, evs) ∧ racyB progI1 (cfgI 5) s = true)
+    ∧ (∃ s evs, run progI2 (cfgI 5) initI schedI2 = some (s, evs) ∧ racyB progI2 (cfgI 5) s = true)
+    ∧ (∃ s evs, run progW1 (cfgW 5) initW schedW1 = some (s, evs) ∧
+        panicCode s = 0 ∧ allFinished progW1 (cfgW 5) s = false ∧ ∀ c : Choice, stepC progW1 (cfgW 5) s c = none)
+    ∧ (∃ s evs, run progW2 (cfgW 5) initW schedW2 = some (s, evs) ∧ racyB progW2 (cfgW 5) s = true)
+    ∧ (∃ s evs, run progQ1 (cfgB 6) initB schedQ1 = some (s, evs) ∧
+        panicCode s = 0 ∧ allFinished progQ1 (cfgB 6) s = false ∧ ∀ c : Choice, stepC progQ1 (cfgB 6) s c = none) :=
+  ⟨progT1_racy, progT2_deadlocks, progT3_panics, progI1_racy, progI2_racy, progW1_deadlocks, progW2_racy, progQ1_deadlocks⟩
+
+/-- the blocking-send edits are refutations of the corresponding `SafeAll` statements (shape of `cluster_old_protocol_deadlocks`) -/
+theorem blocking_enqueue_not_safe :
+    ¬ SafeAll Sync.Progs.progT2 (Sync.Progs.cfgT 6) Sync.Progs.initT ∧ ¬ SafeAll Sync.Progs.progW1 (Sync.Progs.cfgW 5) Sync.Progs.initW
+      ∧ ¬ SafeAll Sync.Progs.progQ1 (Sync.Progs.cfgB 6) Sync.Progs.initB := by
+  refine ⟨fun hs => ?_, fun hs => ?_, fun hs => ?_⟩
+  · obtain ⟨s, evs, hrun, _, hnf, hstuck⟩ := Sync.progT2_deadlocks
+    obtain ⟨_, hlive, _⟩ := hs _ s evs hrun
+    rcases hlive with h | ⟨c, hc⟩
+    · rw [h] at hnf; cases hnf
+    · rw [hstuck c] at hc; cases hc
+  · obtain ⟨s, evs, hrun, _, hnf, hstuck⟩ := Sync.progW1_deadlocks
+    obtain ⟨_, hlive, _⟩ := hs _ s evs hrun
+    rcases hlive with h | ⟨c, hc⟩
+    · rw [h] at hnf; cases hnf
+    · rw [hstuck c] at hc; cases hc
+  · obtain ⟨s, evs, hrun, _, hnf, hstuck⟩ := Sync.progQ1_deadlocks
+    obtain ⟨_, hlive, _⟩ := hs _ s evs hrun
+    rcases hlive with h | ⟨c, hc⟩
+    · rw [h] at hnf; cases hnf
+    · rw [hstuck c] at hc; cases hc
 
 /-! ## 5. the Bool clauses mean what the statement says -/
 
